@@ -373,7 +373,8 @@ func runC04(c *simkit.Ctx) {
 					}
 					c.Fault("crash_in_flush")
 					c.Probe("c04_crash_in_flush")
-					c.Logf("CRASH during the flush at %s (err %v)", disk.CrashInfo, ferr)
+					crashInfo := disk.CrashInfo
+					c.Logf("CRASH during the flush at %s (err %v)", crashInfo, ferr)
 					func() {
 						defer func() { recover() }()
 						r.proxy.cur.Close()
@@ -383,7 +384,7 @@ func runC04(c *simkit.Ctx) {
 					disk.Restart()
 					st, err := leveldbstore.NewLevelDBStore(path)
 					if err != nil {
-						c.Fail("reopen-fails", "crash-in-flush", "reopen of leveldb after a crash during the flush fails: %v", err)
+						c.Fail("reopen-fails", "crash-in-flush", "reopen of leveldb after a crash during the flush (%s) fails: %v", crashInfo, err)
 					}
 					r.proxy.cur = st
 					got := map[string][]byte{}
@@ -419,7 +420,7 @@ func runC04(c *simkit.Ctx) {
 								nNew++
 							}
 						}
-						c.Fail("flush-not-atomic", "crash-in-flush", "after a crash during the flush (%s) LevelDB holds %d entries: neither what it held before (%d entries, %d agree) nor the whole write set applied (%d entries, %d agree)", disk.CrashInfo, len(got), len(r.m.back), nOld, len(after), nNew)
+						c.Fail("flush-not-atomic", "crash-in-flush", "after a crash during the flush (%s) LevelDB holds %d entries: neither what it held before (%d entries, %d agree) nor the whole write set applied (%d entries, %d agree)", crashInfo, len(got), len(r.m.back), nOld, len(after), nNew)
 					}
 					// the memory layers died with the process
 					r.ov = overlaydb.NewOverlayDB(r.proxy)
